@@ -27,7 +27,8 @@ VALUES = {"a": <json value>, ...}                     # a missing name keeps the
          value by type: bool -> true/false, str -> "s", int, float, file -> "<base name>" (the
          file is created in the working directory given to kwargs()/resolved()),
          list[...] -> [..], multi[str] -> [..] or a single "s"; None for optional fields
-CASE   = {"spec": SPEC, "values": VALUES, "append_args": [str, ...]}      (what the checks store)
+CASE   = {"spec": SPEC, "values": VALUES, "append_args": [str, ...],      (what the checks store)
+          "executable_override": str | [str, ...]}    # optional: T(executable=...) at call time
 
     T = build(spec)                       -> the `shell.define(...)` class  (ValueError etc. from
                                              pydra propagate: the caller decides what they mean)
@@ -38,8 +39,11 @@ CASE   = {"spec": SPEC, "values": VALUES, "append_args": [str, ...]}      (what 
     task = make_task(case, workdir)       -> T(**kw, append_args=...)
 
 Strategies (Hypothesis): specs(...), values_for(spec, alphabet), append_args(alphabet),
-cases(...).  Alphabets: WORDS (C22), MILD (words and blanks), SAFE (shell metacharacters that a
-POSIX word may contain unquoted... as far as tokenisation is concerned), HOSTILE (DESIGN 3.5).
+cases(alphabet, assignments=1|k, **specs-kwargs).  Alphabets: WORDS (C22), MILD (words and blanks),
+SAFE (shell metacharacters and unicode that POSIX tokenisation leaves alone: no blanks, quotes,
+backslash), HOSTILE (DESIGN 3.5: blanks, tab, quotes, backslash, metacharacters, unicode).
+Helpers for counters: position_kinds(spec), is_set(field, value), slots_collide(spec),
+plain_char(ch), has_special(strings).
 """
 from __future__ import annotations
 
@@ -56,8 +60,6 @@ CLASS_NAME = "Tool"
 
 # ---------------------------------------------------------------------------- building
 def py_type(tname: str, optional: bool = False):
-    import typing as ty  # noqa: F401
-
     from fileformats.generic import File
     from pydra.utils.typing import MultiInputObj
 
@@ -155,7 +157,16 @@ def make_task(case: dict, workdir, T=None):
     kw = kwargs(case["spec"], case["values"], workdir)
     if case.get("append_args") is not None:
         kw["append_args"] = list(case["append_args"])
+    if case.get("executable_override") is not None:
+        kw["executable"] = case["executable_override"]
     return T(**kw)
+
+
+def effective_spec(case) -> dict:
+    """the spec with the executable the task instance really uses (for the reference model)"""
+    if case.get("executable_override") is not None:
+        return dict(case["spec"], executable=case["executable_override"])
+    return case["spec"]
 
 
 # ---------------------------------------------------------------------------- alphabets
@@ -325,13 +336,20 @@ def specs(draw, min_fields=1, max_fields=5, types=TYPES, positioned=True, templa
 
 
 @st.composite
+def one_case(draw, spec, alpha):
+    case = dict(spec=spec, values=draw(values_for(spec, alpha)), append_args=draw(append_args(alpha)))
+    if draw(st.sampled_from([1] + [0] * 9)):  # executable given at instantiation
+        case["executable_override"] = draw(st.one_of(
+            text(alpha), st.lists(text(alpha), min_size=1, max_size=2)))
+    return case
+
+
+@st.composite
 def cases(draw, alpha=WORDS, assignments=1, **spec_kw):
     spec = draw(specs(**spec_kw))
     if assignments == 1:
-        return dict(spec=spec, values=draw(values_for(spec, alpha)),
-                    append_args=draw(append_args(alpha)))
-    return [dict(spec=spec, values=draw(values_for(spec, alpha)),
-                 append_args=draw(append_args(alpha))) for _ in range(assignments)]
+        return draw(one_case(spec, alpha))
+    return [draw(one_case(spec, alpha)) for _ in range(assignments)]
 
 
 # ---------------------------------------------------------------------------- descriptions
